@@ -71,7 +71,7 @@ PROPS["C01"] = dict(
     functions=["des_cqueue::CQueue::{new,new_at,add,cancel,fetch_next,next_time,len,is_empty,time}",
                "des_cqueue::stable::linked_list::DualLinkedList::{new,add,cancel,front_time,pop_min,is_empty}",
                "EventNode::{new,empty,into_inner}", "LocalBox::{new_in,from_raw_in,drop}", "std VecDeque push_back/pop_front/remove/iter().position"],
-    level_text="Bounded model checking of the real des-cqueue code: for every timestamp pattern (ties, bucket boundaries, whole-year multiples, times equal to the current time) and every script shape listed in the evidence, the SAT solver shows that fetch order is non-decreasing, every non-cancelled event is returned exactly once with its timestamp, cancelled pending events never return, len is exact and cancel of a fetched handle is a no-op. Bounds: <=3 live events, timestamps <=5 ns, (n,t) in {(1,1),(1,2),(2,1),(2,2),(3,1)}. This is the right level because the queue logic is pointer/index arithmetic whose rare inputs (tie with current time, year wrap) a solver enumerates symbolically; it is not a proof for unbounded histories.",
+    level_text="Bounded model checking of the real des-cqueue code: for every timestamp pattern (ties, bucket boundaries, whole-year multiples, times equal to the current time) and every script shape listed in the evidence, the SAT solver shows that fetch order is non-decreasing, every non-cancelled event is returned exactly once with its timestamp, cancelled pending events never return, len is exact, cancel of a fetched handle is a no-op, and the non-destructive next_time() peek (used by the runtime for limits) reports the next timestamp without changing later behaviour. Bounds: <=3 live events, timestamps <=7 ns, (n,t) in {(1,1),(1,2),(2,1),(2,2),(3,1),(3,2)}. This is the right level because the queue logic is pointer/index arithmetic whose rare inputs (tie with current time, year wrap) a solver enumerates symbolically; it is not a proof for unbounded histories.",
     claim="Differential oracle: after every operation the real CQueue is compared with a reference priority list (<=3 events) kept in the harness.",
     assumptions=CQ_STUBS + ["timestamps < 1 s (Duration::new(0, ns)); at most 3 events alive; event-id wrap-around not explored"],
     outside=["more than 3 live events", "timestamps beyond the per-harness T (far-future outliers: scan is linear in T/t)", "usize id wrap", "Duration overflow near MAX", "BinaryHeap back end"],
@@ -215,7 +215,7 @@ PROPS["C16"] = dict(
     functions=["des::net::message::Body::{new,new_non_clonable,is,try_cast,try_content,try_content_mut,try_clone,clone,drop,length}",
                "vtable::<T>/vtable_non_clonable::<T> and vtype_id/vclone/vdrop", "des::net::message::Message::{from_raw_parts,length,can_cast,try_cast,try_content,clone}",
                "MessageBody impls for primitives, (), Option, Result, [T;N], tuples, Vec, String, Box", "Header::byte_len"],
-    level_text="Bounded model checking of the real Body/Message code with symbolic payload values: a body can be read, borrowed or cast only as its creation type (layout-compatible distinct type, the field type, ZSTs and a non-clonable type are all refused and leave the body intact), the value read equals the value put in, every stored value is dropped exactly once under every script of <=4 operations over {clone, try_clone, failed cast, successful cast, drop} on <=3 bodies (drop counters + CBMC's double-free/use-after-free checks on the real drop glue), and Message::length == 64 + declared body length for the listed body types. Derived (proc-macro) bodies and hash-based collections are outside.",
+    level_text="Bounded model checking of the real Body/Message code with symbolic payload values: a body can be read, borrowed or cast only as its creation type (layout-compatible distinct type, the field type, ZSTs and a non-clonable type are all refused and leave the body intact), the value read equals the value put in, every stored value is dropped exactly once under every script of <=4 operations over {clone, try_clone, failed cast, successful cast, drop} on <=3 bodies (drop counters + CBMC's double-free/use-after-free checks on the real drop glue), Message::length == 64 + declared body length for the listed body types (incl. a physically wrapped VecDeque), and Message::try_clone yields an equal value of equal length or - for a non-clonable body - no clone at all. Derived (proc-macro) bodies and hash-based collections are outside.",
     claim="No stubs. Drop counting through static counters in the payload type; CBMC memory checks cover the type-erased Box round trips.",
     assumptions=["payload types A(u32), B(u32) (same layout), Zst, NC(u32) non-clonable; one instantiation each", "script length <= 4, <= 3 bodies alive"],
     outside=["derive(MessageBody) generated impls (proc-macro expands to ::des paths, not usable inside the crate)", "HashMap/HashSet/BTreeMap bodies (hashbrown outside the encoding)", "scripts longer than 4 operations", "channel charging (C07 uses Message::length)"],
@@ -334,7 +334,7 @@ PROPS["C14"] = dict(
 PROPS["C09"] = dict(
     crate="des", mounts=NR_MOUNTS, prepend=DES_PREPEND,
     functions=["ModuleRef::{handle_message,async_wakeup,module_restart,at_sim_start,num_sim_start_stages}", "Processor::{incoming_upstream,incoming_downstream}"],
-    level_text="Claimed for the synchronous kernels only (bounded model checking): with a symbolic active flag, handle_message and async_wakeup run the handler and processing elements iff the module is active and leave the flag unchanged; module_restart sets the module active and runs each declared start-up stage (symbolic count <= 3) exactly once in ascending order, each bracketed by the processing stack. Cancellation of tokio tasks and their timers, dropping of in-transit messages at gates, the shutdown flag handling in buf_process and repeated cycles over a run are NOT decided here (tokio runtime / global context outside the encoding).",
+    level_text="Claimed for the synchronous kernels only (bounded model checking): with a symbolic active flag, handle_message and async_wakeup run the handler and processing elements iff the module is active and leave the flag unchanged; module_restart sets the module active before its start-up stages run (the module observes its own active flag inside at_sim_start) and runs each declared start-up stage (symbolic count <= 3) exactly once in ascending order, each bracketed by the processing stack. Cancellation of tokio tasks and their timers, dropping of in-transit messages at gates, the shutdown flag handling in buf_process and repeated cycles over a run are NOT decided here (tokio runtime / global context outside the encoding).",
     claim="Recorded call log compared with the specification.",
     assumptions=NR_STUBS, outside=["tokio task cancellation on shutdown", "buf_process shutdown branch (global buffers, Runtime<Sim<A>>)", "messages in transit across dispatches", "restart timing (ModuleRestartEvent scheduling)"],
     harnesses=[
